@@ -768,3 +768,25 @@ def stale_alias_reads(cfg: CFG, attr: str, labels_excluded: Iterable[str] = ("ex
                         out.append((d, r, u))
                         break
     return out
+
+
+# ---------------------------------------------------------------------------- per-iteration must-pass
+
+
+def iteration_can_skip(cfg: CFG, loop: ast.AST, must: Iterable[ast.AST], labels_excluded: Iterable[str] = ("exc", "cancel")) -> bool:
+    """Can an iteration of ``loop`` (a For / AsyncFor statement of cfg.fn) reach the next one, or leave the loop normally,
+    without executing any of the ``must`` expressions/statements?  (`continue`, a filter, a conditional around the target.)"""
+    heads = [n for n in cfg.nodes if n.kind == "iter" and n.ast is loop]
+    if not heads:
+        raise AnchorError("iteration_can_skip: loop not found in the CFG")
+    h = heads[0]
+    targets = [x for m_ in must for x in (cfg.nodes_of(m_) or cfg.node_of_containing(m_))]
+    if not targets:
+        return True
+    starts = [t for lab, t in cfg.succ[h] if lab == "loop"]
+    r = cfg.reach(starts, blocked=targets, labels_excluded=tuple(labels_excluded))
+    after = [t for lab, t in cfg.succ[h] if lab == "done"]
+    return h in r or any(a in r for a in after) and any(isinstance(x, ast.Break) for x in ast.walk(loop)) and False
+
+
+from .index import AnchorError  # noqa: E402  (late import: astx is imported by index users)
